@@ -11,6 +11,11 @@ db/pebblev2 and both state backends; after every Store each accessor the specifi
 called for every (block, index, hash) and compared with the specification's answer (found /
 not found as modelled; a found value deeply equal to what was stored), again after a restart; every
 concretised value also round-trips through encoder.Marshal/Unmarshal.
+A third backend (memory-poisoned) enforces the database's lending contract: the slice lent to a Get
+callback / by UncopiedValue is overwritten as soon as the loan ends, and the lazily decoding
+accessors (iterator, blob, prefix scan) are consumed after other reads - an accessor that retains
+lent memory returns garbage. Serializer outputs are retained while further values are serialised and
+must stay byte-identical; a concurrent-writers round stores distinct blocks from 8 goroutines.
 """
 import json
 import vlib
@@ -56,7 +61,8 @@ def run(ctx):
     if len({k for k, _, _ in kinds}) < 10 or sizes != {0, 1, 2, 3}:
         raise vlib.Broken("generated behaviours do not cover all ten transaction kinds and block sizes 0..3")
     res = ctx.run_engine(binary, "TestAccessorsReplay",
-                         {"seed": 0, "start": 0, "behaviours": behaviours, "backends": ["memory", "pebblev2"]},
+                         {"seed": 0, "start": 0, "behaviours": behaviours, "concurrent": True,
+                          "backends": ["memory", "pebblev2", "memory-poisoned"]},
                          timeout=3000)
     ctx.absorb(res, "accessors", "TestAccessorsReplay")
     ctx.coverage["behaviours_generated"] = len(behaviours)
@@ -65,6 +71,8 @@ def run(ctx):
         "byte-level CBOR fidelity is exercised by the concretised round trips, not modelled (DESIGN.md section 8)",
         "equality is strict (nil vs empty slices and maps, nil vs zero pointers, zero values); bloom filters are compared by content; "
         "a mismatch that vanishes when nil and empty are identified is keyed :nil-vs-empty (no hash distinguishes them)",
+        "memory-poisoned backend: a wrapper enforcing the db.Get / UncopiedValue lending contract (the lent slice is "
+        "overwritten when the callback returns / the iterator moves), so retained database memory shows as garbage",
         "what was stored = the objects handed to SanityCheckNewHeight + Store (chainkit blocks built by the real Simulate)",
     ]
     return ctx.finish(
